@@ -52,6 +52,66 @@ def build(repo=None):
     return exes
 
 
+def build_c(repo=None):
+    """`diplomat-tool c` headers for vbridge + gcc (C11, ASan+UBSan) -> sim/c/write_c.c"""
+    tool = tool_build(repo)
+    sd = sim_dir(repo)
+    bd = build_dir(repo)
+    gen = os.path.join(bd, "gen", "vbridge-c")
+    shutil.rmtree(gen, ignore_errors=True)
+    os.makedirs(gen)
+    rc, out, err = run_capture([tool, "c", gen, "-e", "src/lib.rs", "-s"], cwd=os.path.join(sd, "rs", "vbridge"))
+    if rc != 0:
+        raise HarnessError("diplomat-tool c failed on the verification bridge (rc=%d)\n%s" % (rc, err[-3000:]))
+    lib = os.path.join(cargo_build(["vbridge"], repo), "libvbridge.a")
+    outdir = os.path.join(bd, "cpp")
+    os.makedirs(outdir, exist_ok=True)
+    exe = os.path.join(outdir, "write_c")
+    cmd = ["gcc", "-std=c11", "-g", "-O0", "-ftrivial-auto-var-init=pattern", "-fsanitize=address,undefined", "-fno-omit-frame-pointer", "-fno-sanitize-recover=undefined",
+           "-I", gen, os.path.join(sd, "c", "write_c.c"), lib, "-lpthread", "-ldl", "-lm", "-o", exe]
+    r = subprocess.run(cmd, stdout=subprocess.PIPE, stderr=subprocess.STDOUT, text=True)
+    if r.returncode != 0:
+        raise HarnessError("gcc failed on write_c.c / the generated C headers:\n%s" % r.stdout[-6000:])
+    return exe
+
+
+def run_c(seed, n_traces, repo=None):
+    """The C caller's side of DiplomatWrite through the generated C headers. Returns (coverage, violations)."""
+    exe = build_c(repo)
+    nproc = NCPU // 2
+    per = (n_traces + nproc - 1) // nproc
+    cov = {"runs": 0, "counters": {}}
+    violations = []
+
+    def one(k):
+        a, b = k * per, min((k + 1) * per, n_traces)
+        return k, a, b, run_capture([exe, "run", "--seed", str(seed), "--from", str(a), "--to", str(b)], env=SAN_ENV)
+    with ThreadPoolExecutor(max_workers=nproc) as ex:
+        results = list(ex.map(one, range(nproc)))
+    for k, a, b, (rc, out, err) in results:
+        if a >= b:
+            continue
+        stats, viols = parse_stats(out)
+        if rc == 1 and viols:
+            if not violations:
+                p = save_replay("C12-cwrite-%d-%d.trace" % (seed, k), extract_block(out, "REPLAY") or "")
+                violations += [v.replace("replay=-", "replay=" + p) for v in viols]
+        elif rc != 0 or stats is None:
+            first = bisect_crash(lambda x, y: [exe, "run", "--seed", str(seed), "--from", str(x), "--to", str(y)], a, b, env=SAN_ENV)
+            if first is None:
+                raise HarnessError("write_c died (rc=%s) but no single run reproduces it\n%s" % (rc, err[-3000:]))
+            rc2, _, err2 = run_capture([exe, "run", "--seed", str(seed), "--from", str(first), "--to", str(first + 1)], env=SAN_ENV)
+            report = "\n".join("# " + l for l in err2.splitlines()[:50])
+            p = save_replay("C12-cwrite-crash-%d-%d.trace" % (seed, first), "# c-write-trace v1 (C12)\n# generated trace: write_c run --seed %d --from %d --to %d\n# property C12\n# oracle %s (rc=%d)\n%s\n" % (seed, first, first + 1, "ASAN/UBSAN" if rc2 == 77 else "CRASH", rc2, report))
+            if not violations:
+                violations.append("VIOLATION property=C12 replay=%s oracle=%s engine=c-write seed=%d run=%d" % (p, "ASAN/UBSAN" if rc2 == 77 else "CRASH", seed, first))
+        if stats:
+            cov["runs"] += stats["runs"]
+            for kk, vv in stats["counters"].items():
+                cov["counters"][kk] = cov["counters"].get(kk, 0) + vv
+    return cov, violations
+
+
 def _known_flags(prop):
     findings, _ = known_findings()
     keys = [f["key"] for f in findings if f["property"] == "C03" and f["key"].startswith("cpp-")]
@@ -134,6 +194,20 @@ def run(tier, seed, n_traces):
 
 def replay(path):
     text = open(path).read()
+    if text.startswith("# c-write-trace"):
+        exe = build_c()
+        import re
+        m = re.search(r"# generated trace: write_c run --seed (\d+) --from (\d+) --to (\d+)", text)
+        cmd = [exe, "run", "--seed", m.group(1), "--from", m.group(2), "--to", m.group(3)] if m else [exe, "replay", path]
+        rc, out, err = run_capture(cmd, env=SAN_ENV)
+        print(out, end="")
+        if rc not in (0, 1, 2):
+            print("\n".join(err.splitlines()[:40]))
+            print("VIOLATION property=C12 replay=%s oracle=%s (rc=%d)" % (path, "ASAN/UBSAN" if rc == 77 else "CRASH", rc))
+            return 1
+        if m and rc == 0:
+            print("REPLAY-OK no violation")
+        return rc
     prop = "C12" if "(C12)" in text.split("\n", 1)[0] else "C03"
     exes = build()
     keys, _ = _known_flags(prop)
